@@ -162,3 +162,32 @@ func junk(s shape, in oin, j int) oin {
 var ocraKeys = func() [][]byte {
 	return [][]byte{{}, []byte("12345678901234567890"), []byte("12345678901234567890123456789012"), []byte("1234567890123456789012345678901234567890123456789012345678901234"), patt(100, 7)}
 }()
+
+// framed re-homes the fields of an input into ONE backing array, each field directly followed
+// by the next and sliced WITHOUT a capacity limit (fields cut out of a wire frame or a read
+// buffer): an operation that writes behind a field's length lands in its neighbour.
+func framed(in oin) (out oin, frame []byte) {
+	total := 256
+	for _, f := range [][]byte{in.Challenge, in.Counter, in.Password, in.Session, in.Timestamp} {
+		total += len(f)
+	}
+	frame = make([]byte, 0, total)
+	place := func(f []byte) []byte {
+		if f == nil {
+			return nil
+		}
+		start := len(frame)
+		frame = append(frame, f...)
+		return frame[start:len(frame):cap(frame)]
+	}
+	// challenge first, so that its spare capacity covers every later field
+	out.Challenge = place(in.Challenge)
+	out.Session = place(in.Session)
+	out.Counter = place(in.Counter)
+	out.Password = place(in.Password)
+	out.Timestamp = place(in.Timestamp)
+	for i := 0; i < 200; i++ {
+		frame = append(frame, 0xC9)
+	}
+	return out, frame
+}
